@@ -110,28 +110,51 @@ class Check(PropertyCheck):
     prop = "C35"
     design_ref = "§5 C35"
     level_text = ("Lean theorems about the executable model of _MultiDict/Headers on fields : List (Bytes x Bytes), for ALL "
-                  "field lists, keys, values and operation sequences (induction): run_refines (every operation sequence on a "
-                  "store of header objects yields the same return values and fields as the abstract ordered multimap keyed "
-                  "by asciiLower(name)), the multimap laws getAll_setAll, getAll_setAll_other, untouched_order_and_spelling "
-                  "(+ _delItem/_insert), del_removes_all_only, len_eq_distinct, iter_first_occurrence_spelling, insert_at, "
-                  "copy_independent, clear_empties, and http1_roundtrip: for every field list with non-empty colon-free "
-                  "LF-free names not starting with SP/HTAB and LF-free values without leading/trailing whitespace (a superset "
-                  "of RFC-valid fields) _read_headers(lines(bytes(h))) returns exactly the fields. The model is tied to the "
-                  "real Headers class by running identical operation sequences (exhaustive small scope + random) and comparing "
-                  "every return value and all fields tuples after every step.")
-    level_note = ("trusted: Lean kernel; model/implementation tie is differential (exhaustive over a small mutator alphabet up to "
-                  "depth 3 quick / 4 thorough, random beyond). str<->bytes conversion (_native/_always_bytes, utf-8 "
-                  "surrogateescape) is not modelled: the harness passes keys as str or bytes and compares bytes. h11's "
-                  "blank-line search in ReceiveBuffer.maybe_extract_lines is outside the model; only its split-on-LF / "
-                  "strip-CR step is modelled (splitLines) and compared with the real h11 output. MutableMapping mixins "
-                  "(pop, popitem, setdefault, clear, update, keys/values/items) are modelled as their CPython definitions.")
-    technique = "Lean 4 proof (refinement to an abstract ordered multimap, induction over fields/op sequences) + exhaustive/random operation-sequence correspondence with the real Headers class"
+                  "field lists, keys, values and operation sequences (induction). Byte level: run_refines (every operation "
+                  "sequence on a store of header objects yields the same return values and fields as the abstract ordered "
+                  "multimap keyed by asciiLower(name)); the laws getAll_setAll, getAll_setAll_other, getItem_setItem, "
+                  "untouched_order_and_spelling (+ _insert), del_removes_all_only, len_eq_distinct, "
+                  "iter_first_occurrence_spelling, insert_at, add_at_end, copy_creates_equal_object, copy_independent, "
+                  "items_total, clear_empties, eq_iff; touched fields: touched_spelling (reused positions keep their old "
+                  "spelling, created fields carry the caller's), fresh_spelling, spelling_not_invented. str/bytes boundary "
+                  "(transcribed utf-8 + surrogateescape codec): native_roundtrip (_always_bytes(_native(b)) = b for EVERY byte "
+                  "string), encode_fold, api_items, api_state, api_unicode_error_no_change, api_returns (every str a Headers "
+                  "call returns denotes the byte-level result of the lowered operation) and api_run_refines (for every call "
+                  "sequence with str or bytes arguments that raises no UnicodeEncodeError, the trace of returned strs and of "
+                  "all objects' fields is the abstract multimap's trace). HTTP/1: http1_roundtrip(_general): for every field "
+                  "list with non-empty colon-free LF-free names not starting with SP/HTAB and LF-free values without "
+                  "leading/trailing SP/HTAB/CR/LF (a superset of RFC-valid fields) _read_headers(lines(bytes(h))) returns "
+                  "exactly the fields. The model (API layer incl. Headers(fields, **kwargs), codec, parser) is tied to the real "
+                  "code by running identical call sequences and comparing every returned str code point by code point, every "
+                  "exception class and all fields tuples after every step.")
+    level_note = ("trusted: Lean kernel; the model/implementation tie is differential (exhaustive over a 13-mutator alphabet up to "
+                  "depth 3 quick / 4 thorough, codec exhaustive on all 1-byte and all <=3-byte strings over the utf-8 boundary "
+                  "alphabet, random beyond). The decoder model escapes a malformed lead byte and resumes at the next byte; that "
+                  "this equals CPython's range-based error handling is argued in Model/C35_Str.lean and validated, not proved. "
+                  "h11's blank-line search in ReceiveBuffer.maybe_extract_lines is outside the model; only its split-on-LF / "
+                  "strip-CR step is modelled (splitLines) and compared with the real h11 output (cases whose block contains a "
+                  "premature blank line compare the serialised bytes only; they are counted as rt:premature-blank and never "
+                  "arise for valid fields). MutableMapping mixins are modelled as their CPython definitions. Spelling of "
+                  "TOUCHED fields: the statement constrains untouched fields only; the oracle reads 'preserves the spelling' as "
+                  "'no field carries a spelling that was neither stored under that name before nor passed by the caller' "
+                  "(catches seed c35-1) and leaves their position free; the exact placement is proved about the model "
+                  "(touched_spelling) and enforced by the tie. Calls with unencodable str arguments are outside the statement: "
+                  "the oracle demands UnicodeEncodeError and unchanged fields, the model predicts the partial effect of update. "
+                  "Not covered: MultiDictView (request.query / cookies: case-sensitive _kconv, first-value _reduce_values, str "
+                  "items) — it shares _MultiDict's code (fingerprinted here) but is not a header collection; Headers.__init__'s "
+                  "TypeError for non-bytes fields (typing, not modelled). api_returns assumes AOp.wf (the `plain` wrapper holds "
+                  "an argument-free operation), which the driver's parser guarantees.")
+    technique = ("Lean 4 proof (refinement to an abstract ordered multimap at byte and at str/API level, induction over fields/op "
+                 "sequences; utf-8/surrogateescape codec round trip) + exhaustive/random call-sequence correspondence with the "
+                 "real Headers class, _native/_always_bytes and _read_headers")
     rule = ("seq cases: every sequence of <=3 (quick) / <=4 (thorough) mutating ops from a 13-op alphabet over names {a,A,b}, "
-            "two start states, followed by a full query probe; then random sequences of <=12 ops over all 23 operations, "
-            "names differing only in case / non-ASCII / empty, up to 3 aliased-by-copy objects, keys passed as str or bytes. "
-            "rt cases: RFC-valid field lists (70%), single-byte mutations (20%), raw (10%). rd cases: random line lists incl. "
-            "empty lines, continuation lines, missing colon. distinct = distinct case; non-trivial = at least one mutating op "
-            "(seq) / at least one field or line (rt, rd).")
+            "two start states, followed by a full query probe; then random sequences of <=12 calls over all 23 operations, "
+            "names differing only in case / non-ASCII / malformed utf-8 / empty, up to 3 objects related by copy, arguments passed as "
+            "bytes, as the str _native gives, or as arbitrary str incl. lone surrogates; 15% constructed with **kwargs. "
+            "str/enc cases: all 1-byte strings, all 2- and 3-byte strings over the utf-8 boundary alphabet, random soups; code "
+            "point lists around every encoder boundary. rt cases: RFC-valid field lists (70%), single-byte mutations (20%), "
+            "raw (10%). rd cases: random line lists incl. empty lines, continuation lines, missing colon. distinct = distinct "
+            "case; non-trivial = at least one mutating op or kwargs (seq) / non-empty input (others).")
     budget = {"quick": 20000, "thorough": 600000}
     time_budget = {"quick": 15, "thorough": 420}
     fingerprints = [
@@ -148,6 +171,7 @@ class Check(PropertyCheck):
         "mitmproxy.http:Headers.__bytes__", "mitmproxy.http:Headers.__delitem__", "mitmproxy.http:Headers.__iter__",
         "mitmproxy.http:Headers.get_all", "mitmproxy.http:Headers.set_all", "mitmproxy.http:Headers.insert",
         "mitmproxy.http:Headers.items", "mitmproxy.http:_native", "mitmproxy.http:_always_bytes",
+        "mitmproxy.utils.strutils:always_bytes",
         "mitmproxy.net.http.http1.read:_read_headers",
     ]
     trusted_base = ["CPython bytes.lower/strip/split/join, tuple slicing and collections.abc.MutableMapping mixins as the "
@@ -159,6 +183,38 @@ class Check(PropertyCheck):
     def setup(self, tier):
         # the quick tier is faster in-process (20 000 cases take ~5 s); the fork pool only pays off for the thorough tier
         self.parallel = (tier == "thorough")
+        self.selftest()
+
+    def selftest(self):
+        """audit of every abstain branch (AssertionError here ends the run as infrastructure failure, never as a pass):
+        no generated case may be skipped or lose an operation, every case has a model line, and the oracle must
+        reject hand-made wrong observations in the classes where it makes reduced demands."""
+        from common.prng import Rng
+        rng = Rng(424242)
+        for i in range(400):
+            c = self._rand_seq(rng) if i % 4 else (self._rt(rng) if i % 8 else self._rd(rng))
+            if c["kind"] == "seq":
+                assert len(self._norm_ops(c)) == len(c["ops"]), ("generated op dropped", c)
+            self.impl(c)                                # a Skip would propagate and end the run
+            assert self.model_lines(c), ("no model line", c)
+        st = lambda fs: "S 1 / " + r_fields(fs)
+        xa = [["782d61", "30"]]
+        sa = {"kind": "seq", "init": xa, "ops": [["sa", 0, 0, "582d41", ["31", "32"]]]}
+        good = ["none " + st([(b"x-a", b"1"), (b"X-A", b"2")])]
+        bad = ["none " + st([(b"x-a", b"1"), (b"x-a", b"2")])]                       # seed c35-1
+        assert not self.oracle(sa, good) and self.oracle(sa, bad), "touched-spelling clause"
+        gi = {"kind": "seq", "init": [["61", "ff"]], "ops": [["gi", 0, 0, "41"]]}
+        assert not self.oracle(gi, ["val udcff " + st([(b"a", b"\xff")])])
+        assert self.oracle(gi, ["val uff " + st([(b"a", b"\xff")])]), "a wrongly decoded str must be rejected"
+        assert self.oracle(gi, ["val bff " + st([(b"a", b"\xff")])]), "bytes where the API returns str must be rejected"
+        un = {"kind": "seq", "init": [["61", "31"]], "ops": [["si", 0, 0, "ud800", "32"]]}
+        assert not self.oracle(un, ["unicodeerror " + st([(b"a", b"1")])])
+        assert self.oracle(un, ["none " + st([(b"a", b"1")])]), "unencodable key: anything but UnicodeEncodeError is rejected"
+        assert self.oracle(un, ["unicodeerror " + st([(b"a", b"2")])]), "UnicodeEncodeError must not change fields"
+        ok = {"kind": "seq", "init": [["61", "31"]], "ops": [["si", 0, 0, "41", "32"]]}
+        assert self.oracle(ok, ["unicodeerror " + st([(b"a", b"1")])]), "spurious UnicodeEncodeError is rejected"
+        rt = {"kind": "rt", "fields": [["61", "31"]]}
+        assert self.oracle(rt, {"bytes": "613a20310d0a", "lines": None, "res": None}), "valid fields: abstained round trip is a failure"
 
     # ------------------------------------------------------------------ generation
     def _small_alphabet(self):
